@@ -665,6 +665,7 @@ func init() {
 			{Name: "numeric-ids", Quick: 3000, Thorough: 100000, Run: c07NumericID},
 			{Name: "decoders", Quick: 150000, Thorough: 8000000, Run: c07Decoders, RawReplay: c07RawReplay},
 		},
+		Extra: fuzzExtra("C07", 2000000),
 		Require: []string{"roundtrips_compared", "format_cannot_carry_back", "with_empty_component_before_nonempty", "kind_GeometryCollection", "features", "feature_null_geometry", "feature_id_absent", "feature_collections", "numeric_ids",
 			"decode_valid", "decode_structure-mutation", "decode_byte-mutation", "decode_deep-or-huge", "decode_random-bytes", "geometry_decoder_accepted", "geometry_decoder_error", "feature_decoder_accepted", "collection_decoder_accepted"},
 	})
